@@ -18,8 +18,10 @@ package tags
 
 //@ interface tags.loopDecorator
 //@ method before
+//@ requires args: arg0 != nil && arg1 >= 0
 //@ assigns writer
 //@ method after
+//@ requires args: arg0 != nil && 0 <= arg1 && arg1 < arg2
 //@ assigns writer
 
 //@ typeinv tags.offsetWrapper: self.n >= 0 && self.i != nil
@@ -165,9 +167,9 @@ package tags
 //@ requires args: w != nil && i >= 0
 //@ ghost writes Int = 0
 //@ ghost failed Bool = false
-//@ at call Write #*: writes = writes + 1
-//@ at call Write #* assert stopAfterFailure: !failed
-//@ at call Write #*: failed = result1 != nil
+//@ at call Fprintf #*: writes = writes + 1
+//@ at call Fprintf #* assert stopAfterFailure: !failed
+//@ at call Fprintf #*: failed = result1 != nil
 //@ ensures rowStart: !failed ==> writes == ite(tmod(i, c) == 0, 2, 1)
 //@ ensures reported: failed ==> result != nil
 //@ ensures ok: !failed ==> result == nil
@@ -178,9 +180,9 @@ package tags
 //@ requires args: w != nil && i >= 0 && i < l
 //@ ghost writes Int = 0
 //@ ghost failed Bool = false
-//@ at call Write #*: writes = writes + 1
-//@ at call Write #* assert stopAfterFailure: !failed
-//@ at call Write #*: failed = result1 != nil
+//@ at call WriteString #*: writes = writes + 1
+//@ at call WriteString #* assert stopAfterFailure: !failed
+//@ at call WriteString #*: failed = result1 != nil
 //@ ensures rowEnd: !failed ==> writes == ite(tmod(i+1, c) == 0 || i+1 == l, 2, 1)
 //@ ensures reported: failed ==> result != nil
 //@ ensures ok: !failed ==> result == nil
